@@ -14,6 +14,8 @@ PIECES = [",", "\\", "a", "1", "1.0", "", " "]
 INTS = [0, 1, 2, 10]
 FLOATS = [1.0, 0.5, 2.0, 10.0, 1.5]
 MIXED = [1, 1.0, 2, 0.5]
+# measured on the clean tree (review R1, quick tier seed 0): every float comparison of this check (rule signatures,
+# predict-time P(1), EG/GridSearch pmf vs the refit on first-principles group ids) agreed bit for bit (max deviation 0.0)
 TOL = 1e-12
 
 # ---- collision classes of the classic slips (used to PLANT adversarial row pairs) -----------------------------
@@ -251,7 +253,9 @@ class CHECK(Check):
                   "Generated/MergeCallers.lean): a single column is passed through unchanged (not stringified) and is "
                   "injective too, >= 2 columns are merged, control features use the same function under the same test, "
                   "and every fit-time and the predict-time call site reach the same encoder (encode_single/multi/"
-                  "injective, control_uses_same_encoder, fit_predict_same_encoder, predict_selects_same_tuple).")
+                  "injective, control_uses_same_encoder, fit_predict_same_encoder, predict_selects_same_tuple); the partition of the "
+                  "callers' group ids equals MetricFrame's cells at every width >= 1 (encode_partition_eq_metricframe). The "
+                  "interpolation_dict lookup at predict time is correspondence only.")
     design_ref = "DESIGN.md section 4, C13"
     quick_cases = 600
     thorough_cases = 6000
@@ -865,6 +869,9 @@ class CHECK(Check):
                         probs.append(Problem("property", f"rule learned for key {kk!r} is {sig}, the rule learned from exactly the rows "
                                                          f"with that tuple is {rs}", "C13.to_rule_per_tuple"))
                         break
+                if len(to["pmf"]) != len(to["pmf_ref"]):
+                    probs.append(Problem("property", f"predict time: {len(to['pmf'])} probabilities for {len(to['pmf_ref'])} query rows",
+                                         "C13.predict_rule_same_tuple"))
                 for qi, (a, b) in enumerate(zip(to["pmf"], to["pmf_ref"])):
                     if abs(a - b) > TOL:
                         i, s = case["query"][qi]
@@ -890,7 +897,7 @@ class CHECK(Check):
             if len(r["groups"]) != len(want):
                 probs.append(Problem("property", f"{which}: lambda_vecs_ lists {len(r['groups'])} groups, the table has {len(want)} distinct tuples",
                                      "C13.partition_eq_tuple"))
-            if r["n_pred"][0] != r["n_pred"][1] or any(abs(a - b) > 1e-9 for a, b in zip(r["pmf"], r["pmf_ref"])):
+            if r["n_pred"][0] != r["n_pred"][1] or any(abs(a - b) > TOL for a, b in zip(r["pmf"], r["pmf_ref"])):
                 probs.append(Problem("property", f"{which}: fitted model differs from the one fitted on first-principles group ids "
                                                  f"({r['pmf'][:4]} vs {r['pmf_ref'][:4]})", "C13.reduction_same_partition"))
         return probs
